@@ -322,6 +322,11 @@ def engine_rewrite(item, sig, body, env, log, sig_line, body_line, qual):
         params = ', '.join(('%s: %s' % (f, ftype[f]) if is_config_type(ftype[f]) else '%s: &mut %s' % (f, ftype[f])) for f in me['fields'])
         rl.append(RL.R('R2.receiver', r'\( & self\b(?! \.) ,?', '(' + params + ', ', 'receiver split into the fields the body uses: ' + ', '.join(me['fields'])))
         for f in state:
+            if item.get('interference') and f != 'stats':
+                rl.append(RL.R('R1i.acq.write:' + f, r'self \. %s \. (?:write|lock|borrow_mut) \( \)' % f, '(havoc_mut(&mut *%s))' % f, 'interference projection: exclusive acquisition -> arbitrary change, then &mut re-borrow'))
+                rl.append(RL.R('R1i.acq.read:' + f, r'self \. %s \. (?:read|borrow) \( \)' % f, '(havoc_shared(&mut *%s))' % f, 'interference projection: shared acquisition -> arbitrary change, then & re-borrow'))
+                rl.append(RL.R('R1i.dashmap:' + f, r'self \. %s \. (get_mut|get|contains_key|remove|insert|len|iter|clear) \(' % f, r'havoc_mut(&mut *%s).\1(' % f, 'interference projection: every DashMap operation sees a store other threads may have changed'))
+                continue
             rl.append(RL.R('R1.acq.write:' + f, r'self \. %s \. (?:write|lock|borrow_mut) \( \)' % f, '(&mut *%s)' % f, 'exclusive lock acquisition -> &mut re-borrow'))
             rl.append(RL.R('R1.acq.read:' + f, r'self \. %s \. (?:read|borrow) \( \)' % f, '(&*%s)' % f, 'shared lock acquisition -> & re-borrow'))
         for f in fields:
